@@ -47,7 +47,10 @@ def pool(nproc=None):
 
 def run_impl(cases, configs, **kw):
     res = {}
-    for cid, out in pool().imap_unordered(_worker, [(c, configs, kw) for c in cases], chunksize=2):
+    it = pool().imap_unordered(_worker, [(c, configs, kw) for c in cases])      # chunksize 1: the iterator supports a timeout
+    for _ in range(len(cases)):
+        # a worker that dies (e.g. a crash inside a solver library) loses its task: fail instead of waiting for ever
+        cid, out = it.next(timeout=1800)
         res[cid] = out
     return res
 
